@@ -28,6 +28,7 @@ type histProfile struct {
 	FixedMin    bool
 	GovHandover bool // generate ACL / DAO-owner hand-overs with real pool addresses
 	Scripts     bool // insert a focused per-validator action sequence (one validator, one action per block)
+	Batches     bool // insert blocks in which several validators perform the same action together
 	seed        int
 }
 
@@ -345,7 +346,89 @@ func genHistory(t *rapid.T, pr *histProfile) *hProg {
 		script := genValidatorScript(t, &p.Gen)
 		p.Blocks = append(p.Blocks[:at], append(script, p.Blocks[at:]...)...)
 	}
+	if pr.Batches && rapid.IntRange(0, 2).Draw(t, "batch") == 0 {
+		at := rapid.IntRange(0, len(p.Blocks)).Draw(t, "batchat")
+		script := genBatchScript(t, &p.Gen)
+		p.Blocks = append(p.Blocks[:at], append(script, p.Blocks[at:]...)...)
+	}
 	return p
+}
+
+// genBatchScript: blocks in which 2-6 validators perform the SAME action together (all begin unstaking,
+// all stake, all are burned, all miss / double-sign), in a generated order, followed by time steps around
+// the unstaking and jail durations: several validators then share one unstaking-queue entry, mature in
+// the same EndBlock, leave or enter the set in the same update. The chosen keys get funded accounts.
+func genBatchScript(t *rapid.T, g *hGenesis) []hBlock {
+	n := rapid.IntRange(2, 6).Draw(t, "bn")
+	keys := rapid.Permutation([]int{0, 1, 2, 3, 4, 5, 6, 7}).Draw(t, "bkeys")[:n]
+	if len(g.Validators) >= 2 && rapid.IntRange(0, 3).Draw(t, "bgenesis") != 0 {
+		// prefer the genesis validators (they are staked already)
+		keys = keys[:0]
+		for _, v := range g.Validators {
+			keys = append(keys, v.Key)
+		}
+		keys = rapid.Permutation(keys).Draw(t, "bgkeys")
+	}
+	for _, k := range keys {
+		found := false
+		for i := range g.Accounts {
+			if g.Accounts[i].Key == k {
+				found = true
+				if g.Accounts[i].Balance < 100000000 {
+					g.Accounts[i].Balance = 100000000 + int64(k)
+				}
+				g.Accounts[i].NoPub = false
+			}
+		}
+		if !found {
+			g.Accounts = append(g.Accounts, hGenAcc{Key: k, Balance: 100000000 + int64(k)})
+		}
+	}
+	u := g.UnstakingSec
+	steps := []int64{0, 1, 61, u - 1, u, u + 1, g.JailSec + 1}
+	actions := rapid.SampledFrom([][]string{
+		{"unstake", "wait", "wait"},
+		{"stake", "unstake", "wait", "wait"},
+		{"unstake", "wait", "stake", "wait"},
+		{"burn", "wait", "unstake", "wait"},
+		{"evidence", "wait", "stake", "wait"},
+		{"missed", "missed", "missed", "unjail", "wait"},
+		{"stake", "wait", "burn", "unstake", "wait", "wait"},
+	}).Draw(t, "btmpl")
+	var out []hBlock
+	for i, a := range actions {
+		b := hBlock{DTSec: rapid.SampledFrom(steps).Draw(t, "bdt"), Proposer: rapid.IntRange(0, 3).Draw(t, "bprop")}
+		if a == "wait" && rapid.Bool().Draw(t, "bpast") {
+			b.DTSec = u + 1
+		}
+		if b.DTSec < 0 {
+			b.DTSec = 0
+		}
+		order := rapid.Permutation(keys).Draw(t, "border")
+		switch a {
+		case "wait":
+		case "evidence":
+			for _, k := range order {
+				b.Evidence = append(b.Evidence, hEvidence{Val: k, HeightAgo: int64(rapid.IntRange(0, 2).Draw(t, "beh"))})
+			}
+		case "missed":
+			b.Missed = append([]int{}, order...)
+		default:
+			for j, k := range order {
+				tx := hTx{Kind: a, From: k, To: k, SignWith: -1, KeyInSig: true, Entropy: 9000 + int64(i*10+j)}
+				switch a {
+				case "stake":
+					tx.Rel, tx.Amt = "min", int64(rapid.IntRange(0, 2000000).Draw(t, "bstake"))
+				case "burn":
+					tx.From = rapid.IntRange(0, 9).Draw(t, "bburner")
+					tx.Str = rapid.SampledFrom([]string{"0.01", "0.5", "1"}).Draw(t, "bsev")
+				}
+				b.Txs = append(b.Txs, tx)
+			}
+		}
+		out = append(out, b)
+	}
+	return out
 }
 
 // genValidatorScript: a sequence of blocks that concentrates on ONE validator key: each block carries one
